@@ -256,6 +256,8 @@ def _mut_fm(rng, a, op, field, opts):
             _set_tiles(a, fm, h0, h0, fm.shape.width, [t.addresses[0], 0, a2, 0])
             return nm + ".tiles"
         if field == "address":
+            if opts.get("address_single_tile") and (fm.tiles.height_0 < fm.shape.height or fm.tiles.width_0 < fm.shape.width):
+                continue            # moving one of several tiles could make the feature map alias itself
             step = 16 if not nhwc else max(es, rng.choice([es, 16, 64]))
             ad = list(fm.tiles.addresses)
             used = [i for i, x in enumerate(ad) if i == 0 or x != 0]
